@@ -222,3 +222,172 @@ func pathAssumedN(p *core.Path, is func(ssa.Value) bool, val bool) bool {
 	}
 	return false
 }
+
+// passedOnEveryReturn: every path from the entry of g to one of its normal
+// returns executes an instruction satisfying is — directly, or by calling a
+// function of which the same holds (three levels). A call of g is then as good
+// as the instruction itself for a "no path avoids it" rule of the caller. A
+// path of g that ends in a panic returns nothing to the caller and is not a way
+// round.
+func passedOnEveryReturn(g *ssa.Function, is func(ssa.Instruction) bool, depth int) bool {
+	if g == nil || len(g.Blocks) == 0 || depth > 3 {
+		return false
+	}
+	blocker := func(in ssa.Instruction) bool {
+		if is(in) {
+			return true
+		}
+		if c, ok := in.(*ssa.Call); ok && !c.Call.IsInvoke() {
+			if h := c.Call.StaticCallee(); h != nil && h != g {
+				return passedOnEveryReturn(h, is, depth+1)
+			}
+		}
+		return false
+	}
+	isRet := func(in ssa.Instruction) bool { _, ok := in.(*ssa.Return); return ok }
+	return core.PathFromBlock(g.Blocks[0], isRet, blocker) == nil
+}
+
+// ---------------------------------------------------------------- R06.3: which start point a helper was handed
+
+// precedesOnPath: a is executed before b on the path.
+func precedesOnPath(p *core.Path, a, b ssa.Instruction) bool {
+	seenA := false
+	for _, in := range p.Instrs {
+		if in == a {
+			seenA = true
+		}
+		if in == b {
+			return seenA && a != b
+		}
+	}
+	return false
+}
+
+// startPointHandedOver: recv is the receiver of the ToOffset call whose result
+// is sent with PSYNC (at `at`). It is one of the variables themselves, or — when
+// a helper (a closure, a method) sends the PSYNC for a start point it was handed
+// by value — the helper's own copy of its parameter: a local assigned exactly
+// once, from a value that on this path is a read of one of the variables, and
+// between that read and the PSYNC the path neither assigns the variable (or a
+// field of it) nor hands its address to anything. The copy is then the value
+// the variable has when the PSYNC goes out. Returns the variable and the read.
+func startPointHandedOver(p *core.Path, recv ssa.Value, at ssa.Instruction, vars ...*ssa.Alloc) (*ssa.Alloc, ssa.Instruction) {
+	for _, v := range vars {
+		if recv == ssa.Value(v) {
+			return v, nil
+		}
+	}
+	b, ok := recv.(*ssa.Alloc)
+	if !ok {
+		return nil, nil
+	}
+	sts := core.CellStores(b)
+	if len(sts) != 1 || sts[0].Addr != ssa.Value(b) {
+		return nil, nil
+	}
+	// the address of the copy goes to method calls only as their receiver (ToOffset and the like read it);
+	// it is not written through
+	for _, ref := range *b.Referrers() {
+		switch x := ref.(type) {
+		case *ssa.Store, *ssa.UnOp, *ssa.DebugRef, *ssa.FieldAddr:
+			if fa, isFA := x.(*ssa.FieldAddr); isFA {
+				for _, fr := range *fa.Referrers() {
+					if st, isSt := fr.(*ssa.Store); isSt && st.Addr == ssa.Value(fa) {
+						return nil, nil
+					}
+				}
+			}
+		case *ssa.Call:
+			if !strings.HasSuffix(core.ResolveCall(x).Name, "StartPoint).ToOffset") {
+				return nil, nil
+			}
+		default:
+			return nil, nil
+		}
+	}
+	// the first value on the way back from the copy that is a read of one of the variables
+	var ld *ssa.UnOp
+	var src *ssa.Alloc
+	from := sts[0].Val
+	if par, isPar := from.(*ssa.Parameter); isPar {
+		// the parameter of the helper the path stepped into: what the call on the path handed over, as written
+		// at the call (the binding the path keeps is already resolved past the read)
+		g := par.Parent()
+		k := -1
+		for i, q := range g.Params {
+			if q == par {
+				k = i
+			}
+		}
+		var call *ssa.Call
+		for _, in := range p.Instrs {
+			if in == at {
+				break
+			}
+			if c, isCall := in.(*ssa.Call); isCall && !c.Call.IsInvoke() && core.ResolveCall(c).Callee == g {
+				call = c
+			}
+		}
+		if call == nil || k < 0 || k >= len(call.Call.Args) {
+			return nil, nil
+		}
+		from = call.Call.Args[k]
+	}
+	p.ResolvesTo(from, func(x ssa.Value) bool {
+		u, isLd := x.(*ssa.UnOp)
+		if !isLd || u.Op != token.MUL {
+			return false
+		}
+		for _, v := range vars {
+			if u.X == ssa.Value(v) {
+				ld, src = u, v
+				return true
+			}
+		}
+		return false
+	})
+	if ld == nil {
+		return nil, nil
+	}
+	between := false
+	for _, in := range p.Instrs {
+		if in == ssa.Instruction(ld) {
+			between = true
+			continue
+		}
+		if in == at {
+			if !between {
+				return nil, nil
+			}
+			return src, ld
+		}
+		if !between {
+			continue
+		}
+		for _, op := range in.Operands(nil) {
+			if op == nil || *op == nil {
+				continue
+			}
+			// the variable itself, or — in a closure the path stepped into — the captured variable bound to it
+			touches := core.Cell(*op) == src
+			if fa, isFA := (*op).(*ssa.FieldAddr); isFA && core.Cell(fa.X) == src {
+				touches = true
+			}
+			if !touches {
+				continue
+			}
+			switch x := in.(type) {
+			case *ssa.UnOp, *ssa.FieldAddr, *ssa.DebugRef:
+			case *ssa.Store:
+				if x.Val == *op {
+					return nil, nil
+				}
+				return nil, nil // the variable is assigned between the copy and the PSYNC
+			default:
+				return nil, nil // its address is handed on (a method with a pointer receiver, a closure)
+			}
+		}
+	}
+	return nil, nil
+}
